@@ -939,9 +939,17 @@ class HistogramBase(abc.ABC):
             else:
                 adapted_self = self + 0 * other
                 adapted_other = 0 * self + other
-                self.frequencies = adapted_self.frequencies - adapted_other.frequencies
-                self.errors2 = adapted_self.errors2 + adapted_other.errors2
-                self._missed -= other._missed
+                frequencies = adapted_self.frequencies - adapted_other.frequencies
+                errors2 = adapted_self.errors2 + adapted_other.errors2
+                # Validate everything before the first change of self
+                if frequencies.shape != self.shape:
+                    raise ValueError("Values must have same dimension as bins.")
+                if np.any(frequencies < 0):
+                    raise ValueError("Cannot have negative frequencies.")
+                self._coerce_dtype(other.dtype)
+                self.frequencies = frequencies.astype(self.dtype)
+                self.errors2 = errors2.astype(self.dtype)
+                self._missed = self._missed - other._missed
             self._stats = INVALID_STATISTICS
             return self
         array = np.asarray(other)
